@@ -521,107 +521,21 @@ func boolTableFrom(f *ssa.Function, start ssa.Instruction, atoms []atomPred, eve
 // (bit 1: false, bit 2: true).
 func boolReturnTable(f *ssa.Function, atoms []atomPred, resIdx int) (map[int]int, bool) {
 	enterScan(f)
+	// the value of the result at each return, with the operand every phi received on the way there (a boolean
+	// computed into a variable several blocks before it is returned — `return !blocked` — is evaluated on what it was
+	// computed from)
 	out := map[int]int{}
 	ok := true
-	n := len(atoms)
-	for a := 0; a < 1<<n; a++ {
-		val := func(v ssa.Value) tri {
-			for i, at := range atoms {
-				if is, same := at(v); is {
-					t := a&(1<<i) != 0
-					return triOf(t == same)
-				}
-			}
-			return triUnknown
+	for _, ret := range returnsOf(f) {
+		if resIdx >= len(ret.Results) {
+			continue
 		}
-		var eval func(v ssa.Value, pred *ssa.BasicBlock, d int) tri
-		eval = func(v ssa.Value, pred *ssa.BasicBlock, d int) tri {
-			if d > 12 {
-				return triUnknown
-			}
-			if t := val(v); t != triUnknown {
-				return t
-			}
-			switch x := v.(type) {
-			case *ssa.Const:
-				if b, isB := constBool(x); isB {
-					return triOf(b)
-				}
-			case *ssa.UnOp:
-				if x.Op == token.NOT {
-					switch eval(x.X, pred, d+1) {
-					case triTrue:
-						return triFalse
-					case triFalse:
-						return triTrue
-					}
-				}
-				if x.Op == token.MUL {
-					if s := resolveLoad(x); s != ssa.Value(x) {
-						return eval(s, pred, d+1)
-					}
-				}
-			case *ssa.Call:
-				if d < 8 {
-					if t := evalPredicateCall(x, func(v ssa.Value, p *ssa.BasicBlock) tri { return eval(v, p, d+1) }); t != triUnknown {
-						return t
-					}
-				}
-			case *ssa.Phi:
-				if pred != nil {
-					for i, p := range x.Block().Preds {
-						if p == pred {
-							return eval(x.Edges[i], nil, d+1)
-						}
-					}
-				}
-			}
-			return triUnknown
+		res, okR := boolValueAt(f, ret, ret.Results[resIdx], atoms)
+		if !okR {
+			ok = false
 		}
-		budget := 20000
-		type key struct{ b, p *ssa.BasicBlock }
-		visited := map[key]bool{}
-		var walk func(b, pred *ssa.BasicBlock)
-		walk = func(b, pred *ssa.BasicBlock) {
-			if budget <= 0 {
-				ok = false
-				return
-			}
-			budget--
-			k := key{b, pred}
-			if visited[k] {
-				return
-			}
-			visited[k] = true
-			last := b.Instrs[len(b.Instrs)-1]
-			switch t := last.(type) {
-			case *ssa.Return:
-				if resIdx < len(t.Results) {
-					switch eval(t.Results[resIdx], pred, 0) {
-					case triTrue:
-						out[a] |= 2
-					case triFalse:
-						out[a] |= 1
-					default:
-						out[a] |= 3
-					}
-				}
-			case *ssa.If:
-				switch eval(t.Cond, pred, 0) {
-				case triTrue:
-					walk(b.Succs[0], b)
-				case triFalse:
-					walk(b.Succs[1], b)
-				default:
-					walk(b.Succs[0], b)
-					walk(b.Succs[1], b)
-				}
-			case *ssa.Jump:
-				walk(b.Succs[0], b)
-			}
-		}
-		if len(f.Blocks) > 0 {
-			walk(f.Blocks[0], nil)
+		for a, bits := range res {
+			out[a] |= bits
 		}
 	}
 	return out, ok
